@@ -195,14 +195,37 @@ func (p *Prog) Callees(c *ssa.CallCommon) []*ssa.Function {
 		}
 		// a func-typed local: look through cells / phis to closures
 		var out []*ssa.Function
-		for _, r := range Sources(c.Value) {
-			switch v := r.(type) {
-			case *ssa.Function:
-				out = append(out, v)
-			case *ssa.MakeClosure:
-				out = append(out, p.Unwrap(v.Fn.(*ssa.Function)))
+		add := func(f *ssa.Function) {
+			for _, o := range out {
+				if o == f {
+					return
+				}
+			}
+			out = append(out, f)
+		}
+		var walk func(v ssa.Value, depth int)
+		walk = func(v ssa.Value, depth int) {
+			for _, r := range Sources(v) {
+				switch v := r.(type) {
+				case *ssa.Function:
+					add(v)
+				case *ssa.MakeClosure:
+					add(p.Unwrap(v.Fn.(*ssa.Function)))
+				case *ssa.ChangeType:
+					walk(v.X, depth)
+				case *ssa.Call:
+					// a function picked by a selector of the module: what the selector returns
+					if sel := v.Call.StaticCallee(); sel != nil && sel.Blocks != nil && InModule(sel) && depth > 0 {
+						for _, ret := range Returns(sel) {
+							if len(ret.Results) == 1 {
+								walk(RetVal(ret, 0), depth-1)
+							}
+						}
+					}
+				}
 			}
 		}
+		walk(c.Value, 2)
 		return out
 	}
 	if fs, ok := p.impls[c.Method]; ok {
